@@ -657,6 +657,11 @@ impl ReadTransaction {
     pub(crate) fn verif_leaf_ref(leaf: Arc<leaf::node::LeafNode>) -> LeafNodeRef {
         LeafNodeRef { inner: leaf }
     }
+
+    /// Put a hand-built leaf into the leaf cache of this read transaction.
+    pub(crate) fn verif_cache_leaf(&self, page_number: PageNumber, leaf: Arc<leaf::node::LeafNode>) {
+        self.inner.leaf_cache.insert(page_number, leaf);
+    }
 }
 
 impl Drop for ReadTransactionInner {
